@@ -783,9 +783,16 @@ OPS = {"add": ops.add, "mul": ops.mul, "sub": ops.sub}
 def gen_term(rng, sizes, depth):
     names = list(sizes)
     if depth == 0 or rng.random() < 0.25:
-        if rng.random() < 0.5:
+        r = rng.random()
+        if r < 0.35:
             n = rng.choice(names)
             return ["var", n, sizes[n]]
+        if r < 0.5:
+            # Slice(name, start, stop, step, dtype) with exactly sizes[name] points
+            n = rng.choice(names)
+            start, step = rng.randint(0, 2), rng.randint(1, 3)
+            stop = start + step * (sizes[n] - 1) + rng.randint(1, step)
+            return ["slice", n, start, stop, step, stop + rng.randint(0, 2)]
         keys = rng.sample(names, rng.randint(0, len(names)))
         shape = [sizes[k] for k in keys]
         size = int(np.prod(shape)) if shape else 1
@@ -797,6 +804,9 @@ def gen_term(rng, sizes, depth):
 def term_funsor(t):
     if t[0] == "var":
         return Variable(t[1], Bint[t[2]])
+    if t[0] == "slice":
+        from funsor.terms import Slice
+        return Slice(t[1], t[2], t[3], t[4], t[5])
     if t[0] == "tensor":
         data = np.array(t[3], dtype=np.float64).reshape(t[2])
         return Tensor(data, OrderedDict((k, Bint[s]) for k, s in t[1]))
@@ -806,6 +816,8 @@ def term_funsor(t):
 def term_sx(t):
     if t[0] == "var":
         return ["var", Q(t[1]), t[2]]
+    if t[0] == "slice":
+        return ["slice", Q(t[1]), t[2], t[3], t[4], t[5]]
     if t[0] == "tensor":
         return ["tensor", enc_inputs(t[1]), t[2], t[3], t[4]]
     return ["binary", t[1], term_sx(t[2]), term_sx(t[3])]
@@ -815,6 +827,8 @@ def term_py(t, env):
     """Python oracle: value of the term at a named point."""
     if t[0] == "var":
         return env[t[1]]
+    if t[0] == "slice":
+        return t[2] + t[4] * env[t[1]]
     if t[0] == "tensor":
         a = np.array(t[3]).reshape(t[2])
         return int(a[tuple(env[k] for k, _ in t[1])])
@@ -823,7 +837,7 @@ def term_py(t, env):
 
 
 def term_vars(t):
-    if t[0] == "var":
+    if t[0] in ("var", "slice"):
         return {t[1]}
     if t[0] == "tensor":
         return {k for k, _ in t[1]}
@@ -837,18 +851,20 @@ import numpy as np, itertools, funsor
 from collections import OrderedDict
 from funsor.domains import Bint
 from funsor.tensor import Tensor
-from funsor.terms import Variable, Number
+from funsor.terms import Variable, Number, Slice
 import funsor.ops as ops
 funsor.set_backend("numpy")
 term = {t!r}; sizes = {sizes!r}
 OPS = dict(add=ops.add, mul=ops.mul, sub=ops.sub)
 def build(t):
     if t[0] == "var": return Variable(t[1], Bint[t[2]])
+    if t[0] == "slice": return Slice(t[1], t[2], t[3], t[4], t[5])
     if t[0] == "tensor":
         return Tensor(np.array(t[3], dtype=np.float64).reshape(t[2]), OrderedDict((k, Bint[s]) for k, s in t[1]))
     return OPS[t[1]](build(t[2]), build(t[3]))
 def value(t, env):
     if t[0] == "var": return env[t[1]]
+    if t[0] == "slice": return t[2] + t[4] * env[t[1]]
     if t[0] == "tensor": return int(np.array(t[3]).reshape(t[2])[tuple(env[k] for k, _ in t[1])])
     l, r = value(t[2], env), value(t[3], env)
     return dict(add=l + r, mul=l * r, sub=l - r)[t[1]]
@@ -1362,8 +1378,11 @@ def correspond(ctx):
     ctx.assumptions.append("numpy reshape / transpose / broadcast_to are modelled by their index-level "
                            "specification (row-major ravel/unravel), not verified")
     ctx.assumptions.append("lazy Align / Contraction.align / Delta.align: the gate is the Python oracle (value at every "
-                           "point; inputs order for full permutations); agreement with the Lean model LTerm.alignT / "
-                           "deltaAlign (order, Align wrapper, value table) is measured and reported, not gated")
+                           "point; inputs order = names for full permutations, which is what alignT_keys_full / "
+                           "alignT_denote / deltaAlign_keys prove of the model); agreement with the Lean model "
+                           "LTerm.alignT / deltaAlign (order, Align wrapper, value table) is measured and reported")
+    ctx.assumptions.append("Slice leaves of the materialize stream are tied three ways (impl, Lean Term.slice model, "
+                           "Python oracle); slicing / diagonal substitution T(a=Slice) is tied by the Python oracle only")
 
 
 def search(ctx, broken):
